@@ -11,7 +11,7 @@ from common import (NCPU, HarnessError, build_dir, extract_block, log, parse_sta
 PROP = "C04"
 
 BUDGET = {
-    "quick": {"bridges": 96, "traces": 60},
+    "quick": {"bridges": 128, "traces": 50},
     "thorough": {"bridges": 2000, "traces": 200},
 }
 ABIS = [("legacy", []), ("spec", ["--config", "js.abi=spec"])]
